@@ -232,7 +232,12 @@ def check_next_taxon(ctx, d1_atoms):
     def refine(n, lab, state):
         st = dict(state)
         if n.kind == 'for':
-            raise Undecided('next_taxon: for loop in the lineage walk is outside the vocabulary')
+            it = n.stmt.iter
+            if isinstance(it, ast.Call) and callee_attr(it) == 'ancestors' and isinstance(n.stmt.target, ast.Name):
+                if lab is True:
+                    st[n.stmt.target.id] = frozenset([UNCHK])     # some taxon of the lineage, threshold unknown
+                return _freeze(st)
+            raise Undecided('next_taxon: for loop over something other than an ancestors() walk')
         test = n.stmt
         if isinstance(test, ast.BoolOp) and isinstance(test.op, ast.And) and lab is False and len(test.values) >= 2:
             # not (A and B ...) : join over "first k true, k+1 false"
@@ -276,7 +281,13 @@ def check_next_taxon(ctx, d1_atoms):
     # stop test has the same normal form as D1 (d := self.distance, t := the walked taxon)
     gm = guard_map(fi.node)
     inner = [s for s in stmts_in(fi.node.body) if isinstance(s, ast.Return) and len(block_path(fi.node, s)) > 1]
-    rep.floor('D4', 'returns inside the walk', len(inner), 1)
+    walk_loops = [s for s in stmts_in(fi.node.body) if isinstance(s, (ast.While, ast.For))]
+    rep.require(walk_loops, 'next_taxon: no lineage walk found')
+    stops = list(inner) + [s for s in stmts_in(fi.node.body) if isinstance(s, ast.Break)]
+    stops = [s for s in stops if any(a[0] in ('le', 'lt') and 'self.distance' in a[1:] for a in path_atoms(gm[s]))]
+    rep.add('D4', fi.site(walk_loops[0]), 'the walk stops at the first (most specific) taxon whose threshold covers the distance, so "next" is the nearest threshold-bearing taxon BELOW the prediction',
+            bool(stops), expected='return/break inside the walk under distance <= threshold', found='the walk never stops at the predicted taxon (it reports the topmost exceeded threshold; wrong when thresholds are not monotone)' if not stops else 'ok',
+            stmt='walk stop')
     for r in inner:
         at = path_atoms(gm[r])
         le = [a for a in at if a[0] in ('le', 'lt')]
@@ -388,6 +399,9 @@ VARIANTS = [
     V('next_taxon returns the taxon that met its threshold', 'B', _C, "\t\t\t\treturn lo\n\n\t\t\tlo = hi\n", "\t\t\t\treturn hi\n\n\t\t\tlo = hi\n", 'D4'),
     V('next_taxon start no longer skips threshold-less taxa (the repaired defect)', 'B', _C,
       "\t\twhile hi is not None and hi.distance_threshold is None:\n\t\t\thi = hi.parent\n\n\t\twhile hi is not None:", "\t\twhile hi is not None:", 'D4'),
+    V('next_taxon as a single pass without a stop (seeded C03a)', 'B', _C,
+      "\t\twhile hi is not None:\n\t\t\tif hi.distance_threshold is not None and self.distance <= hi.distance_threshold:\n\t\t\t\treturn lo\n\n\t\t\tlo = hi\n",
+      "\t\twhile hi is not None:\n\t\t\tif hi.distance_threshold is not None and self.distance <= hi.distance_threshold:\n\t\t\t\tpass\n\t\t\telse:\n\t\t\t\tlo = hi\n", 'D4'),
     V('next_taxon advance no longer skips threshold-less ancestors', 'B', _C, "\t\t\twhile hi is not None and hi.distance_threshold is None:\n\t\t\t\thi = hi.parent\n\n\t\treturn lo", "\n\t\treturn lo", 'D4'),
     V('report taxon from closest match taxon', 'B', _Q, "report_taxon=reportable_taxon(clsresult.predicted_taxon),", "report_taxon=reportable_taxon(clsresult.closest_match.genome.taxon),", 'D6'),
     V('closest match taxon from a different distance', 'B', _C, "matched_taxon=matching_taxon(ref_genomes[closest].taxon, dists[closest]),", "matched_taxon=matching_taxon(ref_genomes[closest].taxon, dists.mean()),", 'D3'),
